@@ -4,6 +4,7 @@ CONSTANTS
   NF = 2
   FO <- Geo2x2
   SYNC = FALSE
+  WERR = "first"
   DESIGN = "safe"
 INVARIANT Inv
 CHECK_DEADLOCK FALSE
